@@ -1429,6 +1429,18 @@ fn snn_cases(ctx: &mut Ctx) {
                     scripts.push((sc, "last-reply-varied"));
                 }
             }
+            // one of this sign's state reports withheld (no reply) or coming from an address that shares its low byte
+            if (ni + vi) % 2 == 0 || ctx.tier_thorough {
+                let pos: Vec<usize> = full.iter().enumerate().filter(|(_, r)| r.starts_with(&format!("RS.{}.", own))).map(|(i, _)| i).collect();
+                let step = if ctx.tier_thorough { 1 } else { 1 + pos.len() / 6 };
+                for &i in pos.iter().step_by(step) {
+                    for alt in ["N".to_string(), full[i].replacen(&format!("RS.{}.", own), &format!("RS.{}.", own + 0x100), 1)] {
+                        let mut sc = full.clone();
+                        sc[i] = alt;
+                        scripts.push((sc, "own-report-withheld-or-foreign"));
+                    }
+                }
+            }
             for (script, class) in scripts {
                 let line = format!("CT {} {}", op, script.join(" ")).trim_end().to_string();
                 let res = ctx.case(line.clone(), true, &format!("talking-source-{}", class));
@@ -1440,6 +1452,13 @@ fn snn_cases(ctx: &mut Ctx) {
                 if same_snd == 0 {
                     let reqs = trace.iter().filter(|m| **m == format!("RO.{}.RPX", own)).count();
                     ctx.monitor(reqs <= 3, "C11-invariants", &line, &format!("{} pixel transfers were requested of sign {} in one call; at most 3 attempts are allowed", reqs, own));
+                }
+                // confirmed success: a successful call ends  ... QueryState, PixelsComplete, QueryState  and the first of these
+                // queries -- the one that concluded its final attempt -- was answered by this sign's own 'pixels received'
+                if outcome.starts_with("DONE") {
+                    let n = trace.len();
+                    let ok = n >= 4 && trace[n - 2] == format!("PC.{}", own) && trace[n - 3] == format!("QS.{}", own) && script.get(n - 3).map(|r| r.as_str()) == Some(format!("RS.{}.PRX", own).as_str());
+                    ctx.monitor(ok, "C11-invariants", &line, "success reported without the sign's own 'received' report concluding the final attempt");
                 }
                 // complete and ordered: a successful call has sent, in order, every chunk of every page and then their count
                 if outcome.starts_with("DONE") {
